@@ -46,7 +46,7 @@ def hook(reqs, timeout=900):
         while todo:
             inp = "".join(json.dumps(r) + "\n" for r in todo).encode()
             try:
-                p = subprocess.run([exe], input=inp, stdout=subprocess.PIPE, stderr=subprocess.PIPE, env=env, timeout=timeout)
+                p = subprocess.run([exe], input=inp, stdout=subprocess.PIPE, stderr=subprocess.PIPE, env=env, timeout=timeout, preexec_fn=common.limit_mem())
                 out = p.stdout; err = p.stderr.decode("utf8", "replace"); rc = p.returncode
             except subprocess.TimeoutExpired as e:
                 out = e.stdout or b""; err = "TIMEOUT"; rc = -9
